@@ -10,6 +10,7 @@
   the CPUs for `cpu_affinity([])` from the current mask again.
 -/
 import PsutilModel.Proofs.C18Ctx
+import PsutilModel.Proofs.C18Py
 import PsutilModel.Model.C18Gen
 namespace Psutil.C18
 open Spec
@@ -719,5 +720,156 @@ theorem C18_valid_cpu_beyond_stat_lines :
     ((stepX cfgRepaired kLxc 7 ⟨0, none⟩ (.cpuAffinity (some [15, 14]))).2.procs 7).map (·.affinity) = some [14, 15] ∧
     (stepX cfgRepaired kLxc 7 ⟨0, none⟩ (.cpuAffinity (some [1]))).1 = .exc .valueError := by
   decide
+
+/-! ### the arguments as Python objects (enum members, bools, tuples / sets / ranges / iterators)
+
+  `stepPy` is the call as the caller writes it; the driver runs `stepPy`. -/
+
+/-- Whether an argument is a plain int, a member of an `IntEnum` (`IOPRIO_CLASS_*`, a resource
+    wrapped in an enum) or a bool, and whether the CPUs / limits come as a list, tuple, set or range:
+    the call gives the same answer and the same kernel as with the bare values — for every
+    configuration, kernel, existing process, context. -/
+theorem C18_arg_form_irrelevant (c : Cfg) (k : Kernel) (pid : Nat) (st : PState) (x : Ctx) (r : PyReq)
+    (hst : k.procs pid = some st) (h : r.Sized) : stepPy c k pid x r = stepX c k pid x r.erase := by
+  rw [stepPy_alive c hst, stepPyCore_sized c k pid x r h]
+
+/-- … and two requests that differ only in the forms of their arguments have the same effect
+    (process existing or not) -/
+theorem C18_same_values_same_effect (c : Cfg) (k : Kernel) (pid : Nat) (x : Ctx) (r r' : PyReq)
+    (h : r.Sized) (h' : r'.Sized) (he : r.erase = r'.erase) : stepPy c k pid x r = stepPy c k pid x r' := by
+  simp only [stepPy, goneGuard, isSet_erase he, stepPyCore_sized c k pid x r h, stepPyCore_sized c k pid x r' h', he]
+
+/-- a non-exhausted iterator of CPUs is as good as the list of what it yields -/
+theorem C18_cpu_iterator (c : Cfg) (k : Kernel) (pid : Nat) (st : PState) (x : Ctx) (l : List Int)
+    (hst : k.procs pid = some st) (h : l ≠ []) :
+    stepPy c k pid x (.cpuAffinity (some (.iterator, l))) = stepX c k pid x (.cpuAffinity (some l)) := by
+  rw [stepPy_alive c hst, stepPyCore_iterator_nonempty c k pid x l h]
+
+/-- **C18_refines_code_py.** The refinement for the code as it is, with the arguments as Python
+    objects: whatever the specification promises for the call as written, `stepPy` yields exactly
+    that result and that kernel, in every context. -/
+theorem C18_refines_code_py (k : Kernel) (pid : Nat) (st : PState) (x : Ctx) (r : PyReq) (o : Out) (k' : Kernel)
+    (hpid : pid ≠ 0) (hst : k.procs pid = some st) (hwf : WF k st)
+    (hs : Spec.expectPy k pid st r = .promised o k') : stepPy cfg k pid x r = (o, k') := by
+  unfold Spec.expectPy at hs
+  split at hs
+  · cases hs
+  · cases hs
+  · rename_i h1 h2
+    rw [stepPy_alive cfg hst]
+    by_cases hsz : r.Sized
+    · rw [stepPyCore_sized cfg k pid x r hsz]
+      exact C18_refines_code k pid st x _ o k' hpid hst hwf hs
+    · -- an iterator that is not covered by the two silent cases: a non-empty iterator of CPUs
+      cases r with
+      | nice v => exact absurd trivial hsz
+      | ionice a b => exact absurd trivial hsz
+      | cpuAffinity cpus =>
+        cases cpus with
+        | none => exact absurd trivial hsz
+        | some p =>
+          obtain ⟨f, l⟩ := p
+          have hf : f = .iterator := Classical.byContradiction fun hne => hsz hne
+          subst hf
+          have hl : l ≠ [] := fun hl => h1 (by rw [hl])
+          rw [stepPyCore_iterator_nonempty cfg k pid x l hl]
+          exact C18_refines_code k pid st x _ o k' hpid hst hwf hs
+      | rlimit res l =>
+        cases l with
+        | none => exact absurd trivial hsz
+        | some p =>
+          obtain ⟨f, l⟩ := p
+          have hf : f = .iterator := Classical.byContradiction fun hne => hsz hne
+          subst hf
+          exact absurd rfl (h2 res l)
+
+/-- Outside the statement (it names `cpu_affinity([])`, the empty list), noted as behaviour: an
+    EXHAUSTED ITERATOR is truthy, so the front end's `if not cpus` does not fire, the platform layer
+    receives an empty list, the kernel refuses the empty mask, and the caller gets ValueError —
+    the mask is NOT reset to all eligible CPUs, nothing changes. Every context. -/
+theorem C18_empty_iterator_is_refused (c : Cfg) (hrep : c.einvalValueError = true) (k : Kernel) (pid : Nat)
+    (st : PState) (x : Ctx) (hpid : pid ≠ 0) (hst : k.procs pid = some st) :
+    stepPy c k pid x (.cpuAffinity (some (.iterator, []))) = (.exc .valueError, k) := by
+  have hel : ∃ el, getEligibleCpusX k pid x.statusMask = some el := by
+    cases x.statusMask with
+    | none =>
+      simp only [getEligibleCpusX, getEligibleCpus, hst]
+      split <;> exact ⟨_, rfl⟩
+    | some m => exact ⟨_, rfl⟩
+  obtain ⟨el, hel⟩ := hel
+  rw [stepPy_alive c hst]
+  simp only [stepPyCore, hrep, hel, dedup_nil]
+  exact cpuAffinitySetWith_refused el k pid [] (Or.inr (cextAffinitySet_nil k pid st hpid hst))
+
+/-- limits given as an iterator: `len(limits)` raises TypeError before the kernel is asked anything -/
+theorem C18_limits_iterator_TypeError (c : Cfg) (k : Kernel) (pid : Nat) (st : PState) (x : Ctx) (res : Scalar)
+    (l : List Int) (hpid : pid ≠ 0) (hst : k.procs pid = some st) :
+    stepPy c k pid x (.rlimit res (some (.iterator, l))) = (.exc .typeError, k) := by
+  rw [stepPy_alive c hst]
+  simp [stepPyCore, hpid]
+
+/-- **C18_exception_no_effect.** EVERY call that raises — whatever the request, the forms of its
+    arguments, the configuration, the kernel, the context, valid or not, listed in the statement or
+    not (privilege failures, overflowing ints, unknown classes, a vanished process …) — leaves the
+    kernel exactly as it was: same state of every process, empty effect log. -/
+theorem C18_exception_no_effect (c : Cfg) (k : Kernel) (pid : Nat) (x : Ctx) (r : PyReq) (e : Exc) (k' : Kernel)
+    (h : stepPy c k pid x r = (.exc e, k')) : k' = k := by
+  have := excKeeps_stepPy c k pid x r e (by rw [h])
+  rw [h] at this
+  exact this
+
+/-- no call — any request in any form, any context, any configuration — changes another process
+    or a kernel parameter (`C18_others_unchanged` for `stepPy`) -/
+theorem C18_others_unchanged_py (c : Cfg) (k : Kernel) (pid : Nat) (hpid : pid ≠ 0) (x : Ctx) (r : PyReq) :
+    (∀ q, q ≠ pid → (stepPy c k pid x r).2.procs q = k.procs q) ∧
+    (stepPy c k pid x r).2.ncpu = k.ncpu ∧ (stepPy c k pid x r).2.nrOpen = k.nrOpen ∧
+    (stepPy c k pid x r).2.capResource = k.capResource ∧ (stepPy c k pid x r).2.self = k.self :=
+  let f := frame_stepPy c k hpid x r
+  ⟨f.others, f.ncpu, f.nrOpen, f.cap, f.self⟩
+
+/-- a vanished process: every get form answers NoSuchProcess (the kernel's ESRCH through
+    `wrap_exceptions`), every set form — valid or not — answers NoSuchProcess before its arguments
+    are looked at (the guard), a level without a class is still a ValueError; nothing changes -/
+theorem C18_gone_process (c : Cfg) (hg : c.Good) (k : Kernel) (pid : Nat) (x : Ctx) (hpid : pid ≠ 0)
+    (hgone : k.procs pid = none) :
+    stepPy c k pid x (.nice none) = (.exc (.noSuchProcess pid), k) ∧
+    stepPy c k pid x (.ionice none none) = (.exc (.noSuchProcess pid), k) ∧
+    stepPy c k pid x (.cpuAffinity none) = (.exc (.noSuchProcess pid), k) ∧
+    (∀ res : Scalar, fitsCInt res.val = true → 0 ≤ res.val ∧ res.val < 16 →
+      stepPy c k pid x (.rlimit res none) = (.exc (.noSuchProcess pid), k)) ∧
+    (∀ v : Scalar, stepPy c k pid x (.ionice none (some v)) = (.exc .valueError, k)) ∧
+    (∀ r : PyReq, r.isSet = true → stepPy c k pid x r = (.exc (.noSuchProcess pid), k)) := by
+  have hr := resolve_pid k hpid
+  have hguard : ∀ r : PyReq, r.isSet = false → stepPy c k pid x r = stepPyCore c k pid x r := by
+    intro r h; simp [stepPy, goneGuard, h]
+  refine ⟨?_, ?_, ?_, ?_, ?_, ?_⟩
+  · rw [hguard _ rfl]
+    show niceGetX c k pid x.errnoIn = _
+    rw [niceGetX_eq c hg]
+    simp [niceGet, cextGetpriority, sysGetpriority, hr, hgone, ofSys, wrapExc]
+  · rw [hguard _ rfl]
+    show ioniceGetX c k pid x.errnoIn = _
+    rw [ioniceGetX_eq c hg]
+    simp [ioniceGet, cextIoprioGet, sysIoprioGet, hr, hgone, wrapExc]
+  · rw [hguard _ rfl]
+    show cpuAffinityX c k pid x none = _
+    simp only [cpuAffinityX, cextAffinityGetE_eq c hg]
+    simp [cextAffinityGet, sysSchedGetaffinity, hr, hgone, ofSys, wrapExc]
+  · intro res hfit hres
+    rw [hguard _ rfl]
+    show rlimitL c k pid res.val none = _
+    have h2 : ¬ (res.val < 0 ∨ res.val ≥ 16) := by omega
+    simp [rlimitL, hpid, pyPrlimitGet, resourceCheck, hfit, h2, sysPrlimitGet, hr, hgone, wrapExc]
+  · intro v
+    rw [hguard _ rfl]
+    show stepX c k pid x (.ionice none (some v.val)) = _
+    simp [stepX, hg.vwc]
+  · intro r h
+    simp [stepPy, goneGuard, h, hpid, hgone]
+
+example : kWitness.procs 9 = none ∧ (9 : Nat) ≠ 0 ∧ (PyReq.nice (some (.int 5))).isSet = true := ⟨rfl, by decide, rfl⟩
+example : (PyReq.ionice (some (.enum 2)) (some (.bool true))).Sized := trivial
+example : (PyReq.ionice (some (.enum 2)) (some (.bool true))).erase = .ionice (some 2) (some 1) := rfl
+example : ¬ (PyReq.cpuAffinity (some (.iterator, [1]))).Sized := fun h => h rfl
 
 end Psutil.C18
